@@ -364,6 +364,32 @@ def r_value_map(chk, P, tier):
             else:
                 cls = "signed_duration_since: %s - %s, %s" % ("leap" if a[1] >= NS else "ordinary", "leap" if b[1] >= NS else "ordinary", "later - earlier" if a[0] > b[0] else ("earlier - later" if a[0] < b[0] else "same second"))
                 bad.setdefault(cls, (a, b, got, want))
+    # date-times: the difference is whole days plus the time-of-day difference under the same rule
+    NDT = "naive::datetime::NaiveDateTime"
+
+    def ndt_(yof, t):
+        return ("agg", "adt", NDT, "NaiveDateTime", (("agg", "adt", "naive::date::NaiveDate", "NaiveDate", (("const", yof),), 0), _nt(*t)), 0)
+    d0 = (2024 << 13) | (60 << 4) | 0o16       # 2024-02-29 (flags of 2024 = GF = 0o16): ordinal 60
+    try:
+        yof_next = show(fo.call("naive::date::NaiveDate::succ_opt", [("ref", ("agg", "adt", "naive::date::NaiveDate", "NaiveDate", (("const", d0),), 0))]))[1][1]
+    except Exception:
+        yof_next = None
+    if isinstance(yof_next, int):
+        sample = [t for t in times if t[0] in (0, 59, 86399)]
+        for da, ya in ((0, d0), (1, yof_next)):
+            for db, yb in ((0, d0), (1, yof_next)):
+                for a in sample:
+                    for b in sample:
+                        try:
+                            v = show(fo.call(NDT + "::signed_duration_since", [ndt_(ya, a), ndt_(yb, b)]))
+                            got = v[1] * NS + v[2] if isinstance(v, tuple) and v[0] == "TimeDelta::TimeDelta" else v
+                        except Unknown as e:
+                            got = "unknown: %s" % e
+                        want = (da - db) * DAY * NS + _model_diff(a, b)
+                        if got == want:
+                            n_ok += 1
+                        else:
+                            bad.setdefault("NaiveDateTime::signed_duration_since", ((da, a), (db, b), got, want))
     for _ in range(n_ok):
         chk.ok("value")
     for cls, (a, b, got, want) in sorted(bad.items()):
